@@ -578,4 +578,3 @@ func loadCorpus(path string) []*c15Case {
 	return out
 }
 
-func runC16() error { return fmt.Errorf("not yet") }
